@@ -168,7 +168,7 @@ def safe_run(prop, spec):
     default 180) is abandoned and counted as inconclusive - never as a violation."""
     import signal
 
-    limit = int(os.environ.get("VERIF_CASE_TIMEOUT", "180"))
+    limit = int(os.environ.get("VERIF_CASE_TIMEOUT", "0") or 0) or int(getattr(prop, "case_timeout", 180))
     use_alarm = limit > 0 and hasattr(signal, "SIGALRM")
     try:
         if use_alarm:
